@@ -14,6 +14,8 @@ for _kind in ("p2sh", "p2wsh"):
     for _m in (1, 2, 3, 4):
         BOUNDED.append(("describe-%s-n4-m%d" % (_kind, _m), hp.job_describe(_kind, (4,), ms=(_m,), quick_skip=True)))
 
+BOUNDED.append(("helper-create-crosschecks", hp.job_helper_c11))
+
 TRUSTED_BASE = ["pyvc symbolic executor (A-ENGINE)", "z3 5.1", "spec functions verif/specs/psbt.py (A-SPEC: BIP174 parser, commitment of a scriptPubKey "
                 "to a script by hash, exact m-of-n script shape, BIP32 CKDpub over an own secp256k1 implementation, review summary)",
                 "CPython built-ins per verif/pyvc/calls.py (A-BUILTIN)", "harness functions and PSBT builders of verif/harness/psbt.py"]
